@@ -17,7 +17,8 @@ import forms
 import vlib
 from vlib import Evidence, MachineryError, Verdict, run_tlc, tlc_must_pass, tlc_judge
 
-NAMES = [("Kappa", "Lomax"), ("Mirren", "Noxon"), ("Pruitt", "Quillfeather"), ("Ostrander", "Vandermeer")]
+NAMES = [("Kappa", "Lomax"), ("Mirren", "Noxon"), ("Pruitt", "Quillfeather"), ("Ostrander", "Vandermeer"),
+         ("Smith-Jones", "O'Brien"), ("St. Kilda", "McDonald-Webb")]
 REPS = [("U.S.", "410", "113"), ("F.3d", "12", "345"), ("F. Supp. 2d", "5", "100"), ("N.E.2d", "200", "15"), ("Cal. 4th", "29", "300"),
         ("S. Ct.", "93", "705"), ("A.2d", "77", "8")]
 PARS = [("S. Ct.", "93", "705"), ("L. Ed. 2d", "35", "147"), ("P.2d", "493", "880")]
